@@ -183,6 +183,9 @@ def gen(rng, idx, tier):
             xs[1] = xs[0]                                   # duplicate coordinate
         if rng.random() < 0.25 and k >= 2:
             xs[-1] = int(xs[0]) + rng.choice([0.2, 0.4, -0.3])   # distinct, same rounding
+        if rng.random() < 0.2:
+            # boundary values: a caret exactly on (or rounding to) the origin, or negative
+            xs[rng.randrange(k)] = rng.choice([0, 0, 0.0, 0.4, -0.4, 1, -1, -37])
         if rng.random() < 0.5:
             xs.sort(reverse=rng.random() < 0.5)
         idxs = list(range(1, k + 1))
